@@ -46,4 +46,11 @@ theorem shift180_cases (x : Rat) (h0 : 0 ≤ x) (h1 : x < 360) :
     rw [pyMod_unique (x + 180) 360 (x - 180) (by norm_num) (by linarith) (by linarith) 1 (by push_cast; ring)]
     ring
 
+/-- Reducing modulo `m` first changes nothing: `((x % m) + a) % m = (x + a) % m`. -/
+theorem pyMod_pyMod_add (x a m : Rat) (hm : 0 < m) : pyMod (pyMod x m + a) m = pyMod (x + a) m := by
+  obtain ⟨⟨k, hk⟩, _, _⟩ := pyMod_spec x m hm
+  obtain ⟨⟨j, hj⟩, h0, h1⟩ := pyMod_spec (x + a) m hm
+  apply pyMod_unique _ _ _ hm h0 h1 (j - k)
+  rw [hj, hk]; push_cast; ring
+
 end Verde
